@@ -101,9 +101,9 @@ def conversion_problem(case, r):
             p = flat_eq(r._derivs_[key], Vk, Mk, prod(o['numer']) * prod(dk))
             if p:
                 return ('deriv', 'derivative %s: %s' % (key, p))
-        elif a['rec'] and list(r._numer_) == list(o['numer']):
-            # (when the numerator changes, the conversion goes through split_items / join_items, which remove
-            # derivatives by design)
+        elif a['rec'] and list(r._numer_) == list(o['numer']) and not o['denom']:
+            # (when the numerator changes or the operand has a denominator, the conversion goes through
+            # split_items / join_items, which remove derivatives by design)
             return ('derivs-dropped', 'derivative %s is missing from the result although recursive=True' % key)
     return None
 
